@@ -5,5 +5,20 @@ CONSTANTS MaxOps = 4
   NevTargets <- NevSeq
   AddWeights <- WeightsSeq
   SeqOnly = TRUE
+INVARIANT TypeOK
+PROPERTY ScaleExact
+PROPERTY ScaleRecomputed
+PROPERTY ZeroScaleRaises
+PROPERTY GetScalePure
+PROPERTY NeventsSet
+PROPERTY AllowZeroSkips
+PROPERTY NeventsZeroRaises
+PROPERTY ToGraphScalePure
+PROPERTY HeldFrozen
+PROPERTY AddCellwise
+PROPERTY AddOnlyEqualEdges
+PROPERTY AddPure
+PROPERTY AddIntoFresh
+INVARIANT CacheHonest
 INVARIANT Emitted
 CHECK_DEADLOCK FALSE
